@@ -10,14 +10,27 @@ import random
 import re
 
 CLASSES = {
-    "torn": ["zero", "truncate", "tail", "dup_block"],
+    "torn": ["zero", "truncate", "tail", "dup_block", "open_construct", "open_construct"],
     "corrupt": ["flip", "bad_utf8", "nul", "bom8", "bom16", "crlf", "mixed_eol", "lone_cr", "ws_only", "binary"],
     "grammar": ["del_line", "dup_line", "del_token", "dup_token", "unbalance", "drop_close", "dedent",
-                "swap_ext", "shebang", "del_char", "dup_char", "del_punct"],
+                "swap_ext", "shebang", "del_char", "dup_char", "del_punct", "stray_line", "truncate_line"],
     "blowup": ["nest", "chain", "long_line", "many_funcs", "deep_parens", "deep_list"],
 }
 KIND_CLASS = {k: c for c, ks in CLASSES.items() for k in ks}
 EXTS = [".py", ".ts", ".tsx", ".js", ".jsx", ".rs", ".java", ".go", ".txt", ".md", "", ".PY", ".json"]
+
+
+OPEN_CONSTRUCTS = {
+    "python": [b"from collections import (\n    OrderedDict,\n    defaultdict,\n", b"VALUES = [\n    1,\n    2,\n",
+               b'"""unterminated docstring\nsecond line\n', b"def torn(\n    first,\n    second,\n", b"CONFIG = {\n    'a': 1,\n",
+               b"import os\nfrom os.path import (\n    join,\n", b"result = compute(\n    1,\n", b"text = \'\'\'open\n"],
+    "ts": [b"import {\n  alpha,\n  beta,\n", b"/* unterminated comment\n still\n", b"const s = `open template\n line\n",
+           b"export function torn(\n  a,\n  b,\n", b"const o = {\n  a: 1,\n", b"const l = [\n  1,\n", b"if (x) {\n  y();\n",
+           b"class Torn {\n  m() {\n"],
+    "rust": [b"use std::{\n    io,\n    fs,\n", b"/* unterminated comment\n still\n", b'const S: &str = "open\n string\n',
+             b"pub fn torn(\n    a: i32,\n", b"pub struct Torn {\n    a: i32,\n", b"impl Torn {\n    fn m(&self) {\n",
+             b"let v = vec![\n    1,\n", b"#[cfg(\n"],
+}
 
 
 def draw_fault(t, data: bytes, lang: str, allow_blowup: bool = True, force_blowup: bool = False) -> dict:
@@ -38,6 +51,14 @@ def draw_fault(t, data: bytes, lang: str, allow_blowup: bool = True, force_blowu
         p = [t.pick([1, 16, 300, 5000], "fault.len"), t.draw(1 << 30, "fault.seed")]
     elif kind in ("del_char", "dup_char", "del_punct"):
         p = [t.draw(P, "fault.pos")]
+    elif kind == "open_construct":
+        p = [t.draw(8, "fault.which"), t.draw(3, "fault.where"), t.draw(P, "fault.pos")]
+    elif kind == "stray_line":
+        p = [t.draw(P, "fault.pos"), t.draw(10, "fault.what"), t.draw(2, "fault.boundary")]
+    elif kind == "truncate_line":
+        p = [t.draw(P, "fault.pos"), t.draw(2, "fault.early")]
+    elif kind == "shebang":
+        p = [t.draw(8, "fault.variant")]
     elif kind in ("del_line", "dup_line", "del_token", "dup_token", "dedent"):
         p = [t.draw(P, "fault.idx"), 1 + t.draw(3, "fault.cnt")]
     elif kind == "swap_ext":
@@ -155,8 +176,43 @@ def apply(f: dict, data: bytes, lang: str) -> bytes:
             if i >= 0:
                 return data[:i] + data[i + len(ch):]
         return data
-    if k in ("swap_ext", "shebang"):
-        return data if k == "swap_ext" else b"#!/usr/bin/env python3\n" + data
+    if k == "open_construct":
+        # a write torn inside a multi-line construct: the construct is opened and never closed
+        frag = OPEN_CONSTRUCTS["python" if lang == "python" else "rust" if lang == "rust" else "ts"][p[0] % 8]
+        if p[1] == 0:                       # the file ends inside the construct
+            cut = data[:_pos(data, p[2])]
+            cut = cut[:cut.rfind(b"\n") + 1] if b"\n" in cut else b""
+            return cut + frag
+        if p[1] == 1:                       # the whole file is just the torn construct
+            return frag
+        ls = _lines(data)                   # the construct is torn open in the middle, the rest follows
+        i = (p[2] * (len(ls) + 1)) >> 20
+        return b"\n".join(ls[:i]) + (b"\n" if i else b"") + frag + b"\n".join(ls[i:])
+    if k == "stray_line":
+        # one stray token on a line of its own, by preference right before a top-level construct
+        what = [b"}", b")", b"]", b"{", b"(", b"*/", b'"""', b"'", b"#[", b"/*"][p[1] % 10]
+        ls = _lines(data)
+        if p[2]:
+            heads = (b"fn ", b"pub ", b"def ", b"class ", b"function ", b"export ", b"#[", b"impl ", b"async ", b"mod ", b"@")
+            cand = [i for i, l in enumerate(ls) if l.startswith(heads)]
+        else:
+            cand = []
+        cand = cand or list(range(len(ls) + 1))
+        i = cand[(p[0] * len(cand)) >> 20]
+        ls[i:i] = [what]
+        return b"\n".join(ls)
+    if k == "truncate_line":
+        # a lost tail that ends at a line boundary; half of the time inside the first lines (imports, headers)
+        ls = _lines(data)
+        n = min(len(ls), 10) if p[1] else len(ls)
+        i = 1 + ((p[0] * max(1, n - 1)) >> 20)
+        return b"\n".join(ls[:i]) + b"\n"
+    if k == "swap_ext":
+        return data
+    if k == "shebang":
+        first = [b"#!/usr/bin/env python3", b"#!/usr/bin/env python3", b"#!/usr/bin/python", b"#!", b"#! ", b"#!\r",
+                 b"#!/bin/sh", b"#"][(p[0] if p else 0) % 8]
+        return first + b"\n" + data
     # ---- blow-up: appended constructs in the file's language
     return data + _blowup(k, p[0], lang)
 
